@@ -4,6 +4,7 @@
 From Coq Require Import String List NArith.
 From RJ Require Import Base.Outcome Model.PanicInv Model.PanicBaseline Gen.PanicSites.
 From RJ Require Import Model.Span Proofs.Span_proofs Gen.SpanConsts.
+From RJ Require Model.Lexer Model.Parser Model.Analyze Model.Front Proofs.Utf8_proofs Proofs.Front_proofs.
 Local Open Scope N_scope.
 
 (* T: no function of the current source has more explicit panic sites (unwrap, expect, panic!,
@@ -28,6 +29,34 @@ Theorem C01_crop_no_panic : forall stack_len max_trace f h s,
   crop stack_len max_trace = Some (f, h, s) -> f <= stack_len /\ s <= stack_len.
 Proof. intros * H. apply crop_slices_in_range in H. tauto. Qed.
 
+(* ---- the composed front end (Model/Front.v: load_source = lexer -> parser -> analyzer with std) ----
+   On every byte string the composed model answers Ok or one diagnosed error: no panic site of the
+   lexer, of the parser (EOF is never consumed, make_comp, span asserts) or of the analyzer (number
+   conversion unwrap, fields[idx]) is reachable, and the fuel computed from the input length
+   (lexer: len + 1; parser: 64 * (tokens + 2)) is never exhausted.  Glue proved in
+   Proofs/Front_proofs.v and Proofs/FrontParse_proofs.v (see notes/Front.md). *)
+Theorem C01_front_no_panic : forall bytes, Utf8_proofs.bytes_ok bytes ->
+  (exists r, Front.load_model bytes = Ok r) \/ (exists e, Front.load_model bytes = Err e).
+Proof. exact Front_proofs.front_no_panic. Qed.
+
+(* every error of the composed front end (lex / parse / analyze) only carries spans inside the input *)
+Theorem C01_front_error_located : forall bytes x, Utf8_proofs.bytes_ok bytes ->
+  Front.load_model bytes = Err x ->
+  Forall (fun sp : N * N => fst sp <= snd sp /\ snd sp <= N.of_nat (List.length bytes)) (Front.front_error_spans x).
+Proof. exact Front_proofs.front_error_located. Qed.
+
+(* non-vacuity: a program that loads, and one of each error class with its span *)
+Example C01_front_nonvacuous :
+  let good := Lexer.bytes_of_string "local x = 1_0.5e-3; /* c */ [x, std, 'a']" in
+  Utf8_proofs.bytes_ok good /\ is_ok (Front.load_model good) = true /\
+  (exists e, Front.load_model (Lexer.bytes_of_string "1 + 'ab") = Err (Front.FLex e) /\ Lexer.err_span e = (4, 7)) /\
+  (exists e, Front.load_model (Lexer.bytes_of_string "local x = ; x") = Err (Front.FParse e) /\ Parser.pe_span e = (10, 11)) /\
+  Front.load_model (Lexer.bytes_of_string "local x = 1; y") = Err (Front.FAnalyze (Analyze.UnknownVariable (13, 14) [121])).
+Proof. exact Front_proofs.front_examples. Qed.
+
 Print Assumptions C01_panic_sites_covered.
 Print Assumptions C01_span_no_panic.
 Print Assumptions C01_crop_no_panic.
+Print Assumptions C01_front_no_panic.
+Print Assumptions C01_front_error_located.
+Print Assumptions C01_front_nonvacuous.
